@@ -437,7 +437,7 @@ BOUNDED = {
     "C04": [dict(family="front", args_quick=["--depth", "1"], args_thorough=["--depth", "2"],
                  obligation="frontend/bounded-standin/front.extract",
                  known_cases="contracts/known_front_cases.txt",
-                 what="the frontend, printer and glue (swc ASTs, trait objects, symbol tables: outside Verus' dialect) through the public entry point beff_core::extract: every program `type X = E; parse.buildParsers<{X: X}>()` for E built from 35 leaf types (basic types, literals, named object/union/tuple/recursive/generic types) with one type constructor out of 45 unary and 17 binary ones (arrays, tuples, objects, mapped and conditional types, keyof, indexed access, Record/Partial/Pick/Omit/Exclude/Extract, template literals, ...) - 22478 programs in the quick tier; a second constructor on top, thinned, in the thorough tier - 817408 programs; plus 43 hand-written multi-file / malformed / circular projects. Checked per program, as the property states it: the call returns within 20 s, does not panic or crash the process, returns generated code (emit_code Ok and non-empty) or at least one diagnostic, every diagnostic names a file of the project and a line/column/byte range inside it, and the emitted module defines every named runtype exactly once, refers only to named runtypes it defines and has a buildParsersInput entry for every requested name. NOT checked: that the emitted module loads in Node (no TypeScript compiler for the client runtime offline)"),
+                 what="the frontend, printer and glue (swc ASTs, trait objects, symbol tables: outside Verus' dialect) through the public entry point beff_core::extract: every program `type X = E; parse.buildParsers<{X: X}>()` for E built from 35 leaf types (basic types, literals, named object/union/tuple/recursive/generic types) with one type constructor out of 45 unary and 17 binary ones (arrays, tuples, objects, mapped and conditional types, keyof, indexed access, Record/Partial/Pick/Omit/Exclude/Extract, template literals, ...) - 22651 programs in the quick tier; a second constructor on top, thinned, in the thorough tier - 817581 programs; plus 48 hand-written + 168 generated same-name layouts multi-file / malformed / circular projects. Checked per program, as the property states it: the call returns within 20 s, does not panic or crash the process, returns generated code (emit_code Ok and non-empty) or at least one diagnostic, every diagnostic names a file of the project and a line/column/byte range inside it, and the emitted module defines every named runtype exactly once, refers only to named runtypes it defines and has a buildParsersInput entry for every requested name. NOT checked: that the emitted module loads in Node (no TypeScript compiler for the client runtime offline)"),
             dict(family="refspanic", obligation="conversion/bounded-standin/refs.no_panic",
                  known_cases="contracts/known_refspanic_cases.txt",
                  what="convert_to_sem_type + is_subtype on named, possibly recursive types (not under contract): the 23769 questions of the `refs` family (see C05), a case fails only when the real code PANICS")],
@@ -448,6 +448,9 @@ BOUNDED = {
                  obligation="frontend/bounded-standin/front.extract",
                  known_cases="contracts/known_front_cases.txt",
                  what="`contains only constructs the code generator can print`, end to end: the generated programs of C04's frontend stand-in (Exclude / Extract / keyof / indexed access / conditional types over 35 leaf types, see evidence/C04.json) must compile to a module: emit_code() neither panics nor fails, and no named runtype is defined twice"),
+            dict(family="listidx", obligation="access/bounded-standin/listidx.list_indexed_access",
+                 known_cases="contracts/known_listidx_cases.txt",
+                 what="list_indexed_access (its termination and panic-freedom are proved in unit U9, its RESULT is not under contract): T[i] and T[i | j] for tuple types with a prefix up to length 3 over {string, number, boolean} and an optional rest, i, j in 0..=4, 1800 questions, against the item types at the indices"),
             dict(family="schema2", obligation="to_schema/bounded-standin/schema2.convert_to_schema",
                  known_cases="contracts/known_schema2_cases.txt",
                  what="the ASSUMED recursive entry point convert_to_schema and everything around the functions under contract (semtype_to_runtypes, the memo, to_sem_type reading the result back): every `X op Y` (union, intersection, difference) over 21 small source types (literal sets allowed/excluded over numbers and strings, basic tags, four object atoms, unknown, two differences), 1323 round trips; literal values compared by an independent membership function, object parts by the engine's is_same_type; then the frontend's next step remove_nots_of_intersections_and_empty_of_union is compared with an executable reading of its own comment (empty clauses dropped, Not<> members of the others dropped; emptiness decided by the engine), and its result must contain no Not<> and accept at least the values of the computed type")],
@@ -456,7 +459,7 @@ BOUNDED = {
                  what="list_is_empty / list_inhabited (assumed decider of C05): `a <: b | c` for tuple shapes with prefix <= 2 over {string, number} and an optional rest in {string, number}, against brute force over all lists of length <= 4 over three basic values"),
             dict(family="listneg2", obligation="list_shape/bounded-standin/listneg2.list_is_empty",
                  known_cases="contracts/known_listneg2_cases.txt",
-                 what="the same decider on a larger universe: prefixes up to length 3 over {string, number}, optional rest; `a <: b | c` for all 45^3 triples and `a <: b | c | d` with thinned negatives, 151020 questions, against brute force over all lists of length <= 5"),
+                 what="the same decider on a larger universe: prefixes up to length 3 over {string, number}, optional rest; `a <: b | c` for all 45^3 triples and `a <: b | c | d` with thinned negatives; item types string | number as well, prefixes up to length 2 (52 shapes, all triples); the negatives converted before the positive; 291628 questions, against brute force over all lists of length <= 5"),
             dict(family="idxsig", obligation="mapping_dnf/bounded-standin/idxsig.dnf_mapping_is_empty",
                  known_cases="contracts/known_idxsig_cases.txt",
                  what="the object decider on index signatures with a pattern key domain: `S(v) <: B` for the 19 exact objects over the keys a, xa, 1 with values 1 / \"s\" against {[k: K]: T}, K in {string, `x${string}`}, T in {string, number}, and unions / intersections of two of them (refused intersections skipped); oracle: every property whose key lies in K has a value in T"),
